@@ -22,6 +22,39 @@ META = {
 PARSE = "core::str::<impl str>::parse"
 
 
+def _compare_with_table(F, b):
+    from .. import evalx
+    evalx.set_target(F)
+    S = sym.Sym(b)
+    paths = S.paths()
+    side = lambda s_, e: ("Err", ("adt", "errors::ParseErrorEither::ParseErrorEither", ("adt", "errors::ParseErrorSide::" + s_), e))
+    order = []
+    for lres in (("Ok", "A"), ("Err", "EL")):
+        for rres in (("Ok", "B"), ("Err", "ER")):
+            del order[:]
+
+            def parse(arg, lres=lres, rres=rres):
+                order.append(arg)
+                return lres if arg == "LHS" else rres
+
+            asg = {"symbolic": True, "no_inline": True, "params": {1: "LHS", 2: "RHS"}, "calls": {PARSE: parse}}
+            try:
+                got = evalx.run(S, F, paths, asg)
+            except (evalx.Unknown, evalx.Panics) as ex:
+                return "cannot evaluate: %s" % ex
+            if lres[0] == "Err":
+                want = [side("Left", "EL")]
+                if "RHS" in order and order.index("RHS") < order.index("LHS"):
+                    return "the right operand is parsed before the left one"
+            elif rres[0] == "Err":
+                want = [side("Right", "ER")]
+            else:
+                want = [("Ok", ("app", "hash::public::FuzzyHashType::compare", ("A", "B"))), ("Ok", ("app", "hash::public::FuzzyHashType::compare", ("B", "A")))]
+            if got not in want:
+                return "parse(left) = %s, parse(right) = %s gives %s; reference %s" % (lres, rres, got, want[0])
+    return None
+
+
 def run(ctx, FS):
     for key, F in FS.items():
         # case- and prefix-insensitivity of the operands is the hex decoder's: 'a'-'f' and 'A'-'F' decode to the same nibbles in every
@@ -75,6 +108,12 @@ def run(ctx, FS):
                     msgs.append("%s -> %s" % (k, sym.fmt(got[k])))
         else:
             msgs.append("decision keys %s" % sorted(got))
+        if not ok:
+            # any other spelling (map_err + `?`, let-else, ...): decide the function on the four outcomes of the two parses
+            why = _compare_with_table(F, b)
+            ok = why is None
+            if not ok:
+                msgs = [why]
         ctx.ob(r, ("compare_with", "decision-table"), ok,
                "compare_with deviates from: Err(left) -> (Left, e_left); Ok,Err(right) -> (Right, e_right); Ok,Ok -> compare(left,right): %s" % msgs,
                cfg=F.key, where=b.where())
